@@ -5,12 +5,13 @@
 # evidence of the patched run is written to evidence/<ID>.json -- re-run ./check <ID> afterwards if you commit evidence.
 set -u
 PATCH=$(readlink -f "$1"); ID=$2; TIER=${3:-quick}
+V=$(cd "$(dirname "$0")/.." && pwd)
 W=/tmp/trypatch-$$
 git -C /repo worktree add -q --detach "$W" HEAD || exit 2
 if ! git -C "$W" apply "$PATCH"; then echo "PATCH DOES NOT APPLY"; git -C /repo worktree remove --force "$W"; exit 2; fi
-cd /verif
+cd "$V"
 cp evidence/$ID.json /tmp/trypatch-ev-$$.json 2>/dev/null
-CNVKIT_REPO=$W PYTHONPATH=$W:/verif/harness PYTHONHASHSEED=0 CNVKIT_VERIF=1 PYTHONWARNINGS=ignore OMP_NUM_THREADS=1 PYTHONDONTWRITEBYTECODE=1 \
+CNVKIT_REPO=$W PYTHONPATH=$W:$V/harness PYTHONHASHSEED=0 CNVKIT_VERIF=1 PYTHONWARNINGS=ignore OMP_NUM_THREADS=1 PYTHONDONTWRITEBYTECODE=1 \
   /venv/bin/python harness/main.py $ID --tier $TIER 2>&1 | tail -${TAIL:-6}
 RC=${PIPESTATUS[0]}
 git -C /repo worktree remove --force "$W"
